@@ -37,8 +37,8 @@ REGS_INT = list(range(-1, 33))
 def reg_names(rot):
     out = []
     for n in range(32):
-        k = (n + rot) % 3
-        out.append('x%d' % n if k == 0 else (operands.ABI[n] if k == 1 else str(n)))
+        k = (n + rot) % 4
+        out.append('x%d' % n if k == 0 else (operands.ABI[n] if k == 1 else (str(n) if k == 2 else hex(n))))
     return out + ['fp', 'x32', 'x-1', 's12', 'pc', '']
 
 
